@@ -20,7 +20,7 @@ CHUNK = 48
 
 # the per-inode facts Ext4Abs.tla reads (the rest -- times, owner, digests, xattrs -- reaches TLC through "tree")
 INODE_KEYS = ("ino", "type", "links", "flags", "own", "shape_err", "range_err", "csum_err", "csum_ok", "bit",
-              "special", "ea_inode", "ea_refs", "rlo", "rhi", "map")
+              "special", "ea_inode", "ea_refs", "rlo", "rhi", "coff", "map")
 
 
 class AbsStateError(RuntimeError):
